@@ -14,9 +14,12 @@ DumpOK(ev) ==
   /\ ev.ret = Len(ev.b)
   /\ ev.r = ev.b \o <<-1>>                     \* parses back to the same bytes followed by -1
   /\ ParseOK(ev)
+TwoOK(ev) == ev.ra = ParseAll(ev.sa) /\ ev.rb = ParseAll(ev.sb)          \* interleaved sessions do not disturb each other
+BigOK(ev) == /\ ev.ret = ev.n /\ ev.outlen = 2 * ev.n + ((ev.n + 15) \div 16)      \* 16 pairs per line, newline after a final partial line
+             /\ ev.shape = 1 /\ ev.back = 1
 TraceInit == ti = 1
 TraceNext == /\ ti <= Len(T) /\ ti' = ti + 1
-             /\ LET ev == T[ti] IN CASE ev.e = "Parse" -> ParseOK(ev) [] ev.e = "Dump" -> DumpOK(ev) [] OTHER -> FALSE
+             /\ LET ev == T[ti] IN CASE ev.e = "Parse" -> ParseOK(ev) [] ev.e = "Dump" -> DumpOK(ev) [] ev.e = "Two" -> TwoOK(ev) [] ev.e = "BigDump" -> BigOK(ev) [] OTHER -> FALSE
 TraceSpec == TraceInit /\ [][TraceNext]_ti
 TraceAccepted ==
   LET d == TLCGet("stats").diameter IN
